@@ -122,3 +122,12 @@ func (g *G) MutString(corpus []string) (string, string) {
 	}
 	return s, fam
 }
+
+// MutateText applies 1-3 random edits to a path text.
+func (g *G) MutateText(s string) string {
+	out := g.mutate(s, 1+g.intn("nmut", 3))
+	if r := []rune(out); len(r) > 256 {
+		out = string(r[:256])
+	}
+	return out
+}
